@@ -311,7 +311,7 @@ fn c13_case(rwnd: usize, burst: usize, cwnd: usize, rto: u64, sizes: &[usize], f
     let mut msgs: Vec<Msg> = sizes.iter().enumerate().map(|(i, l)| Msg { side: 0, chan: 1, data: payload(0, 1, i, *l), phase: 0, task: 0 }).collect();
     msgs.push(Msg { side: 1, chan: 1, data: payload(1, 1, 0, 700), phase: 0, task: 0 });
     Case { cfg, chans: [vec![ChanSpec::reliable(1)], vec![ChanSpec::reliable(1)]], msgs, faults,
-        deadline: Duration::from_secs(15), settle: Duration::from_millis(rto * 5), closes: vec![] }
+        deadline: Duration::from_secs(15), settle: Duration::from_millis(rto * 5), closes: vec![], end: End::None }
 }
 
 fn cases(args: &Args, rng: &mut Rng) -> Vec<Case> {
